@@ -63,6 +63,7 @@ def case_of(e):
 
 
 def run(ctx):
+    ctx.defer_guards = True
     ctx.rule = ("all 8192 13-bit codes via common.altitude and via DF0/4/16/20 carriers with random other bits; all 4096 "
                 "12-bit fields under TC 9-18 and TC 20-22; surface and guard cells; recorded traffic. "
                 "distinct = (fn, code, DF, TC)")
